@@ -20,7 +20,13 @@ use std::time::Instant;
 pub const WORKERS: u64 = 8;
 const MAX_SAMPLES: usize = 6;
 const MAX_HASHES: usize = 6_000_000;
-pub const VERIF_ROOT: &str = "/verif";
+/// where KNOWN_FINDINGS.txt is read and evidence/ and replays/ are written. Always /verif for the
+/// registered checks; the environment override exists so that the mutation-testing script
+/// (tools/mutants.sh) can run the same binary against a patched scratch copy without touching
+/// /verif/evidence.
+pub fn verif_root() -> String {
+    std::env::var("VERIF_ROOT").unwrap_or_else(|_| "/verif".to_string())
+}
 
 #[derive(Clone, Copy, Debug, PartialEq, Eq)]
 pub enum Tier {
@@ -176,6 +182,9 @@ impl Stats {
     pub fn nontrivial(&mut self) {
         self.flag_nontrivial = true;
     }
+    pub fn take_nontrivial(&mut self) -> bool {
+        std::mem::replace(&mut self.flag_nontrivial, false)
+    }
     fn merge(&mut self, o: Stats) {
         self.evaluations += o.evaluations;
         self.nontrivial_total += o.nontrivial_total;
@@ -243,7 +252,7 @@ pub struct Known {
 impl Known {
     pub fn load() -> Known {
         let mut k = Known::default();
-        let path = format!("{VERIF_ROOT}/KNOWN_FINDINGS.txt");
+        let path = format!("{}/KNOWN_FINDINGS.txt", verif_root());
         if let Ok(text) = std::fs::read_to_string(path) {
             for line in text.lines() {
                 let line = line.trim();
@@ -307,6 +316,7 @@ pub trait Leg: Send + Sync {
     fn run(&self, env: &RunEnv, leg_index: u64) -> LegOutcome;
     fn replay(&self, case: &Value) -> Result<Verdict, String>;
 }
+
 
 pub type Oracle<T> = fn(&T, &mut Stats) -> Verdict;
 
@@ -693,7 +703,7 @@ pub fn seed_from_env() -> u64 {
 }
 
 fn write_replay(property: &str, leg: &str, case: &Value, f: &Failure) -> String {
-    let dir = format!("{VERIF_ROOT}/replays");
+    let dir = format!("{}/replays", verif_root());
     let _ = std::fs::create_dir_all(&dir);
     let body = json!({
         "property": property,
@@ -867,7 +877,7 @@ pub fn run_check(check: &Check, tier: Tier, seed: u64) -> i32 {
         "wall_s": (wall * 1000.0).round() / 1000.0,
         "violations": if violation.is_some() { 1 } else { 0 },
     });
-    let dir = format!("{VERIF_ROOT}/evidence");
+    let dir = format!("{}/evidence", verif_root());
     let _ = std::fs::create_dir_all(&dir);
     let path = format!("{dir}/{}.json", check.property);
     if let Err(e) = std::fs::write(&path, serde_json::to_string_pretty(&evidence).unwrap() + "\n") {
@@ -976,3 +986,35 @@ impl<'de> serde::Deserialize<'de> for Bytes {
 pub fn boxed<T: std::fmt::Debug + 'static>(s: impl Strategy<Value = T> + 'static) -> BoxedStrategy<T> {
     s.boxed()
 }
+
+/// Add the statistics of a libFuzzer campaign (written by fuzz/campaign.sh as JSON) to the evidence
+/// file that the PBT part of the same thorough run has just written.
+pub fn merge_fuzz_evidence(property: &str, stats_path: &str) -> i32 {
+    let path = format!("{}/evidence/{property}.json", verif_root());
+    let read = |p: &str| -> Option<Value> { serde_json::from_str(&std::fs::read_to_string(p).ok()?).ok() };
+    let (mut ev, st) = match (read(&path), read(stats_path)) {
+        (Some(e), Some(s)) => (e, s),
+        _ => {
+            eprintln!("cannot read {path} or {stats_path}");
+            return 2;
+        }
+    };
+    let execs = st.get("execs").and_then(|v| v.as_u64()).unwrap_or(0);
+    let wall = st.get("wall_s").and_then(|v| v.as_f64()).unwrap_or(0.0);
+    if let Some(c) = ev.get_mut("coverage").and_then(|c| c.as_object_mut()) {
+        let e = c.get("evaluations").and_then(|v| v.as_u64()).unwrap_or(0);
+        c.insert("evaluations".into(), json!(e + execs));
+        c.insert("evaluations_pbt_and_sweeps".into(), json!(e));
+        c.insert("fuzz_campaigns".into(), st.clone());
+    }
+    let w = ev.get("wall_s").and_then(|v| v.as_f64()).unwrap_or(0.0);
+    ev["wall_s"] = json!(((w + wall) * 1000.0).round() / 1000.0);
+    match std::fs::write(&path, serde_json::to_string_pretty(&ev).unwrap() + "\n") {
+        Ok(()) => 0,
+        Err(e) => {
+            eprintln!("cannot write {path}: {e}");
+            2
+        }
+    }
+}
+
